@@ -251,7 +251,10 @@ var c18Exprs = map[string][]string{
 	"A": {
 		`.`, `sort_by(.n)`, `sort_by(.grp, .n)`, `sort_by(.name) | reverse`, `group_by(.grp)`,
 		`group_by(.grp) | map({"g": .[0].grp, "names": map(.name)})`, `unique_by(.name)`, `unique_by(.grp) | map(.name)`, `map(.n) | unique`,
-		`map(.tags) | flatten | unique`, `pivot`, `map(pick(["name", "n"])) | pivot`, `.[] | select(.n > 2) | .name`,
+		`map(.tags) | flatten | unique`, `pivot`, `map(pick(["name", "n"])) | pivot`,
+		// ragged records: several keys that only later records have (their columns come in order of first appearance)
+		`(map(pick(["name"])) + [{"p": 1, "q": 2, "r": 3, "s": 4, "t": 5}]) | pivot`, `([{"first": 0}] + .) | pivot | keys`,
+		`[{"a": 1}, {"f": 6, "e": 5, "d": 4, "c": 3, "b": 2}, {"g": 7, "h": 8}] | pivot | to_json(0)`, `.[] | select(.n > 2) | .name`,
 		`map(select(.tags | contains(["x"])))`, `[.[] | .n] | sort`, `map(.n) | min`, `map(.n) | max`,
 		`.[] as $i ireduce ({}; .[$i.grp] += [$i.name])`, `map(.name) | join(",")`, `.[0] * .[1]`, `.[2:5] | map(.name)`,
 		`map(keys) | flatten | unique`, `map(to_entries | length)`, `map(with_entries(select(.key != "tags")))`, `map([.name, .n]) | @csv`,
